@@ -408,8 +408,42 @@ func tamperScenario(w *World, p *Plan, rec *Record) {
 	w.observe()
 	w.checkMutantsAbsent()
 	w.addressChecks(r)
+	w.tamperedSync(r)
 	rec.Nontrivial = len(w.Mutants) > 0
 	rec.Sample = samples
+}
+
+// tamperedSync offers altered vertices through the other way a vertex reaches a node: the DAG stream a
+// joining node loads from a peer. One streamed vertex is altered in transit (amount, data or the sealing
+// signature, everything else as sealed); the joiner must not end up holding it.
+func (w *World) tamperedSync(r *prng) {
+	src := w.Nodes[0]
+	ss := w.snapshot(src)
+	if ss == nil || len(ss.Live) < 2 || len(ss.Stored) > 0 {
+		return
+	}
+	if !w.waitQuiet(30 * time.Second) {
+		return
+	}
+	kind := []string{"tampered-amount", "tampered-data", "tampered-signature"}[r.Intn(3)]
+	sf := &StreamFault{Kind: kind, Index: r.Intn(len(ss.Live))}
+	w.Net.StreamFault = sf
+	j := w.addNode()
+	err := w.joinNode(j.Idx, src.Idx)
+	if len(w.stuck) > 0 || !sf.fired || sf.tampered == nil {
+		return
+	}
+	w.probe("c04-altered-vertex-offered-by-sync")
+	w.fault("corruption:sync:" + kind)
+	js := w.snapshot(j)
+	if js == nil {
+		return
+	}
+	var th Hash
+	copy(th[:], sf.tampered.Hash)
+	if sv := js.get(th); sv != nil && (js.Loaded || j.Book.DagLoaded()) {
+		w.violate("C04", "admitted", "sync:"+kind, j.Idx, "altered copy of vertex %s is in the ledger the node loaded from its peer (join error: %v)", hx(th), err)
+	}
 }
 
 type mutantRec struct {
